@@ -16,7 +16,7 @@ import warnings
 
 import numpy as np
 
-from .. import core, ref_fit
+from .. import core, ref_fit, seams
 from . import Engine
 
 PEAK_NAMES = ["gaussian", "lorentzian", "pseudo_voigt"]
@@ -359,8 +359,47 @@ class FitEngine(Engine):
         _STATE["real"] = fp.curve_fit
         fp.curve_fit = OptimizerProxy()
 
+    SWEEP_RUNS = 8
+
     def generate(self, rng, tier, i):
-        return generate(rng, tier, i)
+        import random
+
+        if 0 <= i < self.SWEEP_RUNS:
+            # enumerated interleavings: one canonical input shared by the sweep runs; every
+            # distinct source line of _fit_peaks.py is used once as the point where a second
+            # caller's fit_peaks (same kind of spectrum, other noise) runs
+            for seed in range(4242, 4342):
+                scn = generate(random.Random(seed), tier, -1)
+                if (len(scn["estimates"]) == 2 and scn["grid"]["n"] <= 120 and scn["windows"]["mode"] == "scalar"
+                        and len(scn["peak"]["models"]) == 1 and len(scn["background"]["models"]) == 1):
+                    break
+            # a well-conditioned input (two separated Gaussian peaks on a line, estimates close to
+            # the truth): the sweep is about scheduling points, not about hard fits
+            scn.update(faults={"mode": "none"}, decompose=False, remove=False, coord_dtype="float64",
+                       grid={"kind": "uniform", "n": 101, "lo": 1.0, "hi": 2.0, "seed": 1},
+                       truth={"bkg": [2.0, 0.5], "noise": 0.05, "seed": 7,
+                              "peaks": [{"shape": "gaussian", "area": 1.0, "loc": 1.3, "width": 0.03},
+                                        {"shape": "gaussian", "area": 0.7, "loc": 1.7, "width": 0.04}]},
+                       estimates=[1.31, 1.69], windows={"mode": "scalar", "width": 0.3},
+                       background={"as": "name", "models": ["linear"]}, peak={"as": "name", "models": ["gaussian"]},
+                       fit_parameters=None, fit_requirements=None)
+            half = self.SWEEP_RUNS // 2
+            if i < half:
+                # two peaks; the other caller fits the same kind of spectrum with other noise
+                scn["interleave"] = {"sweep": [i, half], "other_seed": 99}
+            else:
+                # one peak; the other caller makes the very same call on the same data (two workers
+                # given the same input): whatever one caller leaves in shared state is exactly
+                # what the other is about to look up
+                scn["truth"]["peaks"] = scn["truth"]["peaks"][:1]
+                scn["estimates"] = scn["estimates"][:1]
+                scn["interleave"] = {"sweep": [i - half, half], "other_seed": scn["truth"]["seed"]}
+            return scn
+        scn = generate(rng, tier, i)
+        if rng.random() < 0.12:
+            scn["interleave"] = {"frac": rng.random(), "where": rng.choice(["site", "site", "line"]),
+                                 "other_seed": scn["truth"]["seed"] if rng.random() < 0.3 else rng.randrange(1 << 30)}
+        return scn
 
     # ----------------------------------------------------------------- calls
     def _fit(self, scn, ctx, da, estimates, windows, plan, keymap, label):
@@ -390,6 +429,85 @@ class FitEngine(Engine):
         ctx.count("fit_peaks_calls")
         ctx.count("optimiser_calls", len(log))
         return res, exc, log
+
+    def _fit_nested(self, scn, ctx, da, label):
+        """fit_peaks by another simulated caller while a first caller's call is in progress: the
+        optimiser proxy's bookkeeping of the outer call is put aside and restored."""
+        saved = dict(_STATE)
+        try:
+            return self._fit(scn, ctx, da, scn["estimates"], scn["windows"], None, None, label)
+        finally:
+            _STATE.update(saved)
+
+    def _interleaved(self, scn, ctx, da, R):
+        """Two callers, two spectra: the second caller's whole fit_peaks runs while the first is
+        at one line boundary of _fit_peaks.py.  Each caller must get exactly what it gets alone."""
+        import scippneutron.peaks._fit_peaks as fp_mod
+
+        il = scn["interleave"]
+        other = copy.deepcopy({k: v for k, v in scn.items() if k != "interleave"})
+        other["truth"]["seed"] = il["other_seed"]
+        other["faults"] = {"mode": "none"}
+        da_o = make_data(other)[0]
+        Ro, eo, _ = self._fit(other, ctx, da_o, other["estimates"], other["windows"], None, None, "other alone")
+        if eo is not None:
+            return
+        want_m = [canon_result(r) for r in R]
+        want_o = [canon_result(r) for r in Ro]
+        prefixes = (fp_mod.__file__,)
+        counter = seams.Preemptor(prefixes, {})
+        _, e0, _ = counter.run(lambda: self._fit(scn, ctx, da, scn["estimates"], scn["windows"], None, None,
+                                                 "counting pass"))
+        if e0 is not None:
+            return
+        totals = {"line": counter.ordinal, "site": len(counter.site_order)}
+        if il.get("sweep"):
+            part, of = il["sweep"]
+            pts = [("site", k) for k in range(totals["site"]) if k % of == part]
+            ctx.count("interleaving_points_enumerated", len(pts))
+        else:
+            where = il.get("where", "site")
+            total = totals[where]
+            pts = [(where, il["at"] if "at" in il else (min(total - 1, int(il["frac"] * total)) if total else 0))]
+        for where, at in pts:
+            state = {}
+            kind = "preempt_at_source_line" if where == "site" else "preempt_in_fit"
+            ctx.fault_configured(kind)
+
+            def cb(frame, state=state, where=where, at=at):
+                state["at"] = f"{frame.f_code.co_name}:{frame.f_lineno}"
+                ctx.log("preempt", state["at"], where, at)
+                ctx.site("preempt@_fit_peaks.py:" + frame.f_code.co_name)
+                state["res"] = self._fit_nested(other, ctx, da_o, "other caller")
+
+            pre = seams.Preemptor(prefixes, {at: cb} if where == "line" else {},
+                                  site_points={at: cb} if where == "site" else None)
+            pre.once = True
+            Rm, em, _ = pre.run(lambda: self._fit(scn, ctx, da, scn["estimates"], scn["windows"], None, None,
+                                                  "pre-empted"))
+            if "res" not in state:
+                ctx.probe("preemption_point_not_reached")
+                continue
+            ctx.fault_fired(kind)
+            ctx.probe("two_fits_interleaved")
+            desc = f"{where} {at}/{totals[where]} = {state['at']}"
+            hint = {"il_where": where, "il_at": at}
+            Rn, en, _ = state["res"]
+            for who, e in (("pre-empted", em), ("pre-empting", en)):
+                if e is not None:
+                    ctx.violate("raised", f"[interleaved at {desc}] the {who} caller's fit_peaks raised {e}",
+                                kind="raised:interleaved", _hint=hint)
+                    break
+            else:
+                for who, got, want in (("pre-empted", Rm, want_m), ("pre-empting", Rn, want_o)):
+                    g = [canon_result(r) for r in got]
+                    if g != want:
+                        k = next((j for j, (a, b) in enumerate(zip(g, want, strict=False)) if a != b), 0)
+                        ctx.violate("isolation", f"[interleaved at {desc}] the {who} caller's result for peak {k} "
+                                    f"differs from what the same call returns alone: "
+                                    f"{got[k].assessment.name} p={float(got[k].p_value.value)!r} vs p="
+                                    f"{want[k][3] if len(want[k]) > 3 else '?'}",
+                                    kind="isolation:interleaved_" + who, _hint=hint)
 
     def _key_of(self, da, window):
         sl = da["x", window[0]:window[1]]
@@ -445,6 +563,8 @@ class FitEngine(Engine):
                                 f"{R[i].assessment.name}/{R[i].message} vs {S[0].assessment.name}/{S[0].message}",
                                 kind="isolation:fault_free")
             ctx.count("single_peak_references", n_est)
+        if scn.get("interleave"):
+            self._interleaved(scn, ctx, da, R)
         twin_nfev = sum(c.get("nfev", 0) for c in log)
         ctx.count("model_evaluations_twin", twin_nfev)
         if scn.get("decompose") and twin_nfev < 4000:
@@ -879,6 +999,17 @@ class FitEngine(Engine):
         if s["grid"]["n"] > 20:
             c = copy.deepcopy(s)
             c["grid"]["n"] = max(20, s["grid"]["n"] // 2)
+            yield c
+        hint = (violation or {}).get("hint") or {}
+        if s.get("interleave") and "il_where" in hint and (
+                s["interleave"].get("sweep") or s["interleave"].get("at") != hint["il_at"]):
+            c = copy.deepcopy(s)
+            c["interleave"] = {"where": hint["il_where"], "at": hint["il_at"],
+                               "other_seed": s["interleave"]["other_seed"]}
+            yield c
+        if s.get("interleave") and (violation or {}).get("clause") != "isolation":
+            c = copy.deepcopy(s)
+            del c["interleave"]
             yield c
         for key, val in (("coord_unit", "one"), ("data_unit", "one"), ("coord_dtype", "float64"),
                          ("results_as", "list")):
